@@ -1,12 +1,15 @@
-(* Correspondence for C13: replays the harness's command script on Model.Redial.
-   case inputs  = (zBUDGET sUID (sGATE ...) (sVERDICT ...) sDEFAULT ((sOP sARG (sHINT ...)) ...))
+(* Correspondence for C13: replays the harness's command script on Model.Redial / RedialMod.
+   case inputs  = (zBUDGET sUID (sGATE ...) (sVERDICT ...) sDEFAULT ((sOP sARG (sHINT ...)) ...) (sMOD sFIRST))
+                  sMOD: what the client's PostDial plugin does through Session.ModifySocket at
+                  every dial: none | nop | wrap | wrapp | ren | ws ; sFIRST: it runs before the
+                  verdict plugin
    observations = ((SNAPSHOT ...) ((nATTEMPTS sOK) ...))
-   SNAPSHOT     = (sSTATUS sHEALTH sIDCLASS nCOUNT sINDEXED sNOTIFIED nDISCHOOKS nHOOKRUNS nHOOKACCEPTS ((sACTOR sPOS) ...))
+   SNAPSHOT     = (sSTATUS sHEALTH sIDCLASS nCOUNT sINDEXED sINDEXEDUSER sNOTIFIED nDISCHOOKS nHOOKRUNS nHOOKACCEPTS ((sACTOR sPOS) ...))
    A command is applied and then every actor that is not standing at a parked gate runs on
    until the session is quiet, exactly as the harness lets the goroutines run. *)
 From Coq Require Import Strings.String Strings.Byte.
 From Coq Require Import List Arith NArith ZArith Bool Lia.
-From Verif Require Import Base.Bytes Base.Val Model.Redial.
+From Verif Require Import Base.Bytes Base.Val Model.Redial Model.RedialMod.
 Import ListNotations.
 
 Record gates := mkGates { g_stored : bool; g_precancel : bool; g_presock : bool;
@@ -126,6 +129,10 @@ Definition next_action (g : gates) (h : hints) (s : st) : option ev :=
   let a_acq' := if win_on_its_way then None else a_acq in
   or_else a_round (or_else a_caller (or_else a_acq' (or_else a_cancel
     (if h_replyfirst h then or_else rp rd else or_else rd rp)))).
+
+Section WithPlugins.
+Variable cfg : modcfg.
+Let step := step_m cfg.
 
 Fixpoint quiesce (fuel : nat) (g : gates) (h : hints) (s : st) : st :=
   match fuel with
@@ -264,10 +271,14 @@ Definition name_of (x : byte) (n : nat) : val := VS (x :: todec (N.of_nat n)).
 Fixpoint number {A} (l : list A) (i : nat) : list (nat * A) :=
   match l with [] => [] | a :: r => (i, a) :: number r (S i) end.
 
+(* "first": the id the session had right after Dial, when it is no longer (or, behind a conn
+   that renames its addresses, never was) what LocalAddr() prints *)
 Definition id_class (s : st) : val :=
   match id s with
   | IdUser => vsym "user"
-  | IdAddr c => if Nat.eqb c (conn s) then vsym "local" else vsym "other"
+  | IdAddr c =>
+      if Nat.eqb c (conn s) && negb (renames (m_kind cfg)) then vsym "local"
+      else if Nat.eqb c 0 then vsym "first" else vsym "other"
   | IdNone => vsym "remote"
   end.
 
@@ -277,6 +288,7 @@ Definition count_hooks (f : bool * verdict -> bool) (s : st) : N :=
 Definition snapshot (s : st) : val :=
   VL [status_name (status_ s); vbool (health s); id_class s;
       VN (N.of_nat (length (index s))); vbool (idmem (id s) (index s));
+      vbool (idmem IdUser (index s));
       vbool (negb (Nat.eqb (notified s) 0)); VN (N.of_nat (dischooks s));
       VN (count_hooks (fun _ => true) s);
       VN (N.of_nat (okrounds s));
@@ -292,11 +304,21 @@ Fixpoint replay (g : gates) (s : st) (cs : list val) (acc : list val) : option (
               end
   end.
 
+End WithPlugins.
+
+Definition modk_of (v : val) : modk :=
+  if sym_eqb v "nop" then MNop
+  else if sym_eqb v "wrap" then MWrap else if sym_eqb v "wrapp" then MWrap
+  else if sym_eqb v "ren" then MRename else if sym_eqb v "ws" then MRename
+  else MNone.
+
 Definition run (inp : val) : option val :=
   match inp with
-  | VL [VZ n; uid; VL park; VL pl; d; VL cs] =>
-      let s0 := init n (sym_eqb uid "true") (map verdict_of pl) (verdict_of d) in
-      match replay (gates_of park) s0 cs [] with
+  | VL [VZ n; uid; VL park; VL pl; d; VL cs; VL [mk; mf]] =>
+      (* ModifySocket as coded in session.go: the id is inherited *)
+      let cfg := mkMod (modk_of mk) (sym_eqb mf "true") true in
+      let s0 := init_m cfg n (sym_eqb uid "true") (map verdict_of pl) (verdict_of d) in
+      match replay cfg (gates_of park) s0 cs [] with
       | Some (s, snaps) =>
           Some (VL [VL snaps;
                     VL (map (fun r => VL [VN (N.of_nat (fst r)); vbool (snd r)]) (rounds s))])
